@@ -228,6 +228,62 @@ def code_sharing(ctx):
                              label, log, want))
 
 
+def constructor_family(ctx, only=None):
+    """Nested constructors: K1(K0) (and K2(K1)) whose __init__ calls super().__init__() first / last / not at all and then
+    calls a public method of the object under construction, which calls another one. While the OUTER constructor runs the
+    object is 'in progress' - none of these nested calls checks the invariants - and exactly once, after the outermost
+    constructor, they are checked. Enumerated over depth x super placement x which constructors call methods x verdict."""
+    import itertools
+
+    def meth(name):
+        return {"name": name, "kind": "method", "async": False, "params": ["x", "y"], "defaults": {"y": "None"},
+                "decos": [], "body": {"ret": "obj"}}
+
+    def init(sup, calls):
+        f = {"name": "__init__", "kind": "init", "async": False, "params": ["x", "y"], "defaults": {"x": "None", "y": "None"},
+             "decos": [], "body": {"ret": "None"}, "super": sup}
+        if calls:
+            f["ctor_calls"] = ["m"]
+        return f
+
+    inv = {"cid": 1, "on": "CALL", "lam": False, "selfarg": True, "err": {"form": "default"}}
+    for depth, sup, calls, code in itertools.product((2, 3), ("first", "last", "absent"), itertools.product((False, True), repeat=3),
+                                                     ("T", "F")):
+        if only and only != [depth, sup, list(calls), code]:
+            continue
+        if not any(calls[:depth]):
+            continue
+        classes = [{"name": "K0", "bases": [], "root": "DBC", "shape": "plain", "invs": [inv],
+                    "members": [meth("m"), meth("n"), init("absent", calls[0])]}]
+        for lvl in range(1, depth):
+            classes.append({"name": "K%d" % lvl, "bases": [lvl - 1], "root": "DBC", "shape": "plain", "invs": [],
+                            "members": [init(sup, calls[lvl])]})
+        prog = {"funcs": [], "classes": classes}
+        top = depth - 1
+        ops = [{"op": "new", "cls": top, "k": 0, "args": {}}, {"op": "call", "k": 0, "m": "n", "args": {"x": "a:s"}}]
+        # the method called from the constructors calls a second method of the same object
+        scripts = [[["body", "K0.m"], [{"op": "call", "k": 0, "m": "n", "args": {"x": "a:s"}}]]]
+        truth = {1: [code]}
+        case = {"program": prog, "ops": ops, "scripts": scripts, "fuel": 6, "truth": truth,
+                "constructor_family": [depth, sup, list(calls), code]}
+        res = run_case(ctx, case, truth)
+        if res is None:
+            continue
+        before = set(ctx.failures)
+        judge_case(ctx, case, truth, res)
+        for b in list(ctx.failures):
+            if b not in before:
+                f = ctx.failures.pop(b)
+                nb = "constructor-family|super-%s|%s" % (sup, b.split("|", 2)[-1])
+                f.bucket = nb
+                ctx.failures[nb] = f
+                ctx.failure_counts[nb] = ctx.failure_counts.pop(b, 1)
+        ctx.count("directed:constructor-family")
+        ctx.case(["constructor-family", depth, sup, calls, code], True,
+                 sample={"directed": "constructor family", "depth": depth, "super().__init__()": sup,
+                         "constructors calling self.m()": list(calls[:depth]), "invariant": code})
+
+
 def run(ctx, tier, seed, shard, nshards):
     import sys
 
@@ -270,11 +326,17 @@ def run(ctx, tier, seed, shard, nshards):
     core.run_hypothesis(test, seed, n)
     if shard == 0:
         code_sharing(ctx)
+        constructor_family(ctx)
 
 
 def replay(ctx, case):
     import sys
 
+    if case.get("constructor_family"):
+        before = ctx.evaluations
+        constructor_family(ctx, only=case["constructor_family"])
+        ctx.evaluations = before + 1
+        return
     if case.get("code_sharing"):
         before = ctx.evaluations
         code_sharing(ctx)
